@@ -96,6 +96,11 @@ def check_oracle(ctx, case, src, res):
     for d in src.dims:
         if [float(v) for v in res[d].values] != [float(v) for v in src[d].values]:
             return bad('coordinate %s changed' % d)
+    if sorted(map(str, res.coords)) != sorted(map(str, src.coords)):
+        return bad('coordinates are not those of the input: %r vs %r' % (sorted(map(str, res.coords)), sorted(map(str, src.coords))))
+    for cname in src.coords:
+        if not np.array_equal(np.asarray(res.coords[cname].values), np.asarray(src.coords[cname].values)):
+            return bad('coordinate %s changed' % cname)
     lab = to_floats(res.data)
     comp = flood_components(data, n)
     first = {}      # component -> label
@@ -127,8 +132,12 @@ def build(case):
         a = np.nan_to_num(a, nan=0.0)
     a = a.astype(case['dtype'])
     rows, cols = a.shape
-    return xr.DataArray(a, dims=['lat', 'lon'], coords={'lat': np.linspace(5, 6, rows), 'lon': np.arange(cols) * 2.0},
-                        attrs={'res': 1, 'crs': 'x'}, name='src')
+    coords = {'lat': np.linspace(5, 6, rows), 'lon': np.arange(cols) * 2.0}
+    if case.get('extra_coords', (rows * 7 + cols + int(case['n'])) % 3 == 0):
+        # non-index coordinates a real raster often carries: scalar band / spatial_ref / time and a 2-D auxiliary coordinate
+        coords.update({'band': 1, 'spatial_ref': 0, 'time': np.datetime64('2020-01-02'),
+                       'xc': (('lat', 'lon'), np.arange(rows * cols, dtype='float64').reshape(rows, cols))})
+    return xr.DataArray(a, dims=['lat', 'lon'], coords=coords, attrs={'res': 1, 'crs': 'x'}, name='src')
 
 
 def run_case(ctx, zonal, case, oracle=True):
